@@ -225,7 +225,9 @@ class VLoop(asyncio.BaseEventLoop):
 
 
 class Draws:
-    """stand-in for the ``random`` module inside someip.sd: records and forces draws"""
+    """stand-in for the ``random`` module inside someip.sd: records and forces draws.  ``uniform(a, b)`` (what the library
+    uses today) and ``random()`` are forced to the scenario's fraction; anything else falls through to a seeded generator,
+    so a library that computes its delays with another call of the random module still runs"""
 
     def __init__(self, rng, mode="rand", forced=None):
         self.rng = rng
@@ -233,22 +235,33 @@ class Draws:
         self.forced = list(forced or [])
         self.log = []
 
-    def uniform(self, a, b):
+    def _fraction(self):
         if self.forced:
-            f = self.forced.pop(0)
-        elif self.mode == "min":
-            f = 0.0
-        elif self.mode == "max":
-            f = 1.0
-        elif self.mode == "mid":
-            f = 0.5
-        elif isinstance(self.mode, (tuple, list)) and self.mode[0] == "const":
-            f = self.mode[1]
-        else:
-            f = self.rng.randrange(0, 17) / 16.0
+            return self.forced.pop(0)
+        if self.mode == "min":
+            return 0.0
+        if self.mode == "max":
+            return 1.0
+        if self.mode == "mid":
+            return 0.5
+        if isinstance(self.mode, (tuple, list)) and self.mode[0] == "const":
+            return self.mode[1]
+        return self.rng.randrange(0, 17) / 16.0
+
+    def uniform(self, a, b):
+        f = self._fraction()
         v = a + (b - a) * f
         self.log.append((a, b, f, v))
         return v
+
+    def random(self):
+        f = self._fraction()
+        f = min(f, 1.0 - 2.0 ** -53)
+        self.log.append((0.0, 1.0, f, f))
+        return f
+
+    def __getattr__(self, name):
+        return getattr(self.rng, name)
 
 
 class LogRecorder(logging.Handler):
